@@ -803,10 +803,13 @@ class Engine(ExprEval, NumpyModel, NumpyFuncs):
     def ghost_for(self, st, anchor):
         if self.cur is None or st.env.get("$func") is not self.cur_fi or not self.cur.ghost:
             return None
-        code = [c for a, c in self.cur.ghost if a == anchor]
+        code = []
+        for a, c in self.cur.ghost:
+            if a == anchor or (a.endswith("*") and anchor.startswith(a[:-1])):
+                code.append(c)
+                self._ghost_hit.add(a)
         if not code:
             return None
-        self._ghost_hit.add(anchor)
         stmts = []
         for c in code:
             stmts.extend(ast.parse(c).body)
